@@ -313,6 +313,37 @@ pub fn check_pos_level(ctx: &mut Ctx, p: &Pos, b: &Board, level: u8) {
             let t = text::san_naive(p, m);
             san_text(ctx, &mut st, &t, None, chain);
         }
+        // the coordinate spelling through the SAN entry points (the SAN reader takes it too)
+        san_text(ctx, &mut st, &txt, None, chain);
+    }
+    // castling candidates that are not even pseudo-legal (no right, blocked path, king attacked
+    // or crossing an attacked square) while king and rook stand on their home squares: the
+    // nearest of all near misses, in every notation
+    {
+        let hr = if p.stm == 0 { 0 } else { 7 };
+        let ksq = sq(4, hr);
+        if p.b[ksq] == mk(p.stm, K) {
+            let pseudo = p.pseudo_vec();
+            for (to_file, rook_file, flag, san) in [(6, 7, 3u8, "O-O"), (2, 0, 4u8, "O-O-O")] {
+                if p.b[sq(rook_file, hr)] != mk(p.stm, R) {
+                    continue;
+                }
+                let m = Mv { from: ksq as u8, to: sq(to_file, hr) as u8, promo: 0, flag };
+                if pseudo.iter().any(|x| x.from == m.from && x.to == m.to) {
+                    continue;
+                }
+                let txt = text::uci(m);
+                if let Ok(mv) = to_move(p, m) {
+                    ctx.add(MV, 1);
+                    apply_value(ctx, &mut st, "Move", &txt, || mv, None, true, chain);
+                    ctx.add(UCIV, 1);
+                    apply_value(ctx, &mut st, "uci::Move", &txt, || mv.uci(), None, true, chain);
+                }
+                ctx.add(UCIS, 1);
+                apply_value(ctx, &mut st, "Uci(str)", &txt, || Uci(txt.clone()), None, true, chain);
+                san_text(ctx, &mut st, san, None, chain);
+            }
+        }
     }
     // the abbreviated text of every pseudo-legal pawn capture (each text once)
     {
@@ -438,7 +469,7 @@ pub fn run(run: &mut Run) {
     let l0 = if thorough {
         Sel { ep: Some(true), castle: Some(true), promo: Some(true), reach: Some(4), counters: true, pin2: Some(4), pawncap2: true, promo2: true, clocks: true, multicheck: Some(3), checkpin: Some(3), castle2: true, counts: true, hist: Some((3, 2)), ..Default::default() }
     } else {
-        Sel { ep: Some(false), ep_spread_only: true, castle: Some(false), promo: Some(false), reach: Some(3), counters: true, pin2: Some(2), pawncap2: true, multicheck: Some(1), checkpin: Some(1), castle2: true, counts: true, ..Default::default() }
+        Sel { ep: Some(false), ep_spread_only: true, castle: Some(false), promo: Some(false), reach: Some(3), counters: true, pin2: Some(2), pawncap2: true, checkpin: Some(1), castle2: true, counts: true, ..Default::default() }
     };
     run_universes(run, &l0, DISAGREE, &check_pos);
     p30_strings(run, if thorough { 4 } else { 3 });
